@@ -165,3 +165,42 @@ func TestStore_SecondarySetError(t *testing.T) {
 	require.Equal(t, store.Len(), store.EstimatedSize())
 	require.Equal(t, uint64(90), secondary.ErrCounter.Load())
 }
+
+func TestStore_SecondaryUpdatePromoted(t *testing.T) {
+	secondary := NewSimpleMapSecondary[int, int]()
+	store := newSecondaryTestStore(secondary, 10)
+	defer store.Close()
+
+	for i := 0; i < 100; i++ {
+		require.True(t, store.Set(i, i, 1, 0))
+	}
+	key := waitDemoted(t, store, secondary, 100)
+
+	// promote old value from secondary cache
+	v, ok, err := store.GetWithSecodary(key)
+	require.Nil(t, err)
+	require.True(t, ok)
+	require.Equal(t, key, v)
+	store.Wait()
+	require.True(t, inMemory(store, key))
+
+	// update the promoted entry, now the copy in secondary cache is stale
+	require.True(t, store.Set(key, key+1000, 1, 0))
+	store.Wait()
+
+	// evict the updated entry from memory, set same keys repeatedly
+	// to increase their frequency so they can replace existing entries
+	deadline := time.Now().Add(secondaryTestDeadline)
+	for inMemory(store, key) {
+		require.True(t, time.Now().Before(deadline), "key not evicted")
+		for i := 1000; i < 1100; i++ {
+			require.True(t, store.Set(i, i, 1, 0))
+		}
+		store.Wait()
+	}
+
+	v, ok, err = store.GetWithSecodary(key)
+	require.Nil(t, err)
+	require.True(t, ok, "updated entry not written to secondary cache")
+	require.Equal(t, key+1000, v, "stale value returned after update")
+}
